@@ -285,3 +285,6 @@ UNITS = [
 
 from . import standins
 STANDINS = [standins.c13_merges]
+
+from . import C13lib     # noqa: E402
+UNITS = UNITS + C13lib.UNITS      # library level: Update, the group-reading loops of _do_load, order/nesting lemma
